@@ -240,6 +240,36 @@ theorem prior_tmp_normalised (sortIdx : List ℝ → List Nat) (hs : SortPerm so
   rw [e, hl] at this
   omega
 
+/-- "resamples the rest": the parents after the first `k` are C07's systematic selection on the
+    (normalised) temporary set, offset by `k`; hence every kept particle — sorted position `k + q` — is
+    replicated a number of times within one of `(N - k)` times its renormalised weight. -/
+theorem prior_resamples_rest (sortIdx : List ℝ → List Nat) (init : PSet π ℝ → PSet π ℝ) (ratio : ℝ) (cor : PSet π ℝ) (u1 : ℝ)
+    (hs : SortPerm sortIdx) (hc : cor.logw.length = cor.parts.length)
+    (h1 : ratio < 1) (hN : 0 < cor.parts.length)
+    (hu0 : 0 < u1) (hu1 : u1 < 1 / ((cor.parts.length - ⌊(cor.parts.length : ℝ) * ratio⌋₊ : ℕ) : ℝ)) :
+    let k := ⌊(cor.parts.length : ℝ) * ratio⌋₊
+    let ws := (priorTmp sortIdx cor k).logw.map Real.exp
+    (resampleWithPrior (fun x => ⌊x⌋₊) sortIdx init ratio cor u1).2.drop k
+      = (resampleIdx ws u1).map (fun (p : Nat) => (p : Int) + (k : Int)) ∧
+    ws.length = cor.parts.length - k ∧ ws.sum = 1 ∧ (∀ x ∈ ws, 0 ≤ x) ∧
+    (∀ q (hq : q < ws.length), |((resampleIdx ws u1).count q : ℝ) - (ws.length : ℝ) * ws[q]| < 1) := by
+  intro k ws
+  have hk : k < cor.parts.length := prior_count_lt ratio cor h1 hN
+  have hlen : ws.length = cor.parts.length - k := by
+    simp only [ws, List.length_map]
+    exact priorTmp_logw_length sortIdx hs.len cor k hc
+  have hsum : ws.sum = 1 := prior_tmp_normalised sortIdx hs cor k hc hk
+  have hnn : ∀ x ∈ ws, 0 ≤ x := by
+    intro x hx; obtain ⟨w, _, rfl⟩ := List.mem_map.1 hx; exact (Real.exp_pos w).le
+  refine ⟨?_, hlen, hsum, hnn, ?_⟩
+  · have : (resampleWithPrior (fun x => ⌊x⌋₊) sortIdx init ratio cor u1).2 =
+        List.replicate k (-1) ++ ((resampleIdx ws u1).map Int.ofNat).map (fun p => p + (k : Int)) := by
+      rw [rwp_parents, resample_parents]; rfl
+    rw [this, List.drop_left' (by simp), List.map_map]
+    rfl
+  · intro q hq
+    exact sel_count_bound ws u1 hnn hsum hu0 (by rw [hlen]; exact hu1) q hq
+
 end prior
 
 /-! ### Non-vacuity and literal applicability to the executed `ℚ` instance -/
